@@ -7,16 +7,27 @@ PROP_V = ["Props/Properties_C08.v"]
 GEN_MODULES = ["Consts", "Sites"]
 FLOW_FILES = ['note.c']
 REPLAY_HINT = "VRT_SEED=<seed> VRT_FAMILY=<f> _work/h/note_mix"
-PARTIAL = []
+PARTIAL = ["C08_descendants is proved as C08_descendants_partial (a notified note on which no note_notify_child is running has no children and "
+           "no waiters) + C08_descendants_linked (a note still linked under a notified parent means a notification of that parent is in "
+           "progress); the creation-time-descendants form C08_descendants_full is kept as a Definition: it needs an invariant tying the "
+           "ghost creation path to the current tree across adoptions (checked exhaustively on 9.1 M explored model states, not proved); "
+           "at quiescence the scenario oracle checks it on the implementation",
+           "the literal reading of the expiry clause ('minimum of the abs_deadline values') is refuted by design: an explicitly notified "
+           "ancestor counts as deadline zero (C08_expiry_literal_refuted); the clause is proved under that reading (C08_expiry)"]
+TRUSTED_BASE = ["Model/NoteModel.v control skeleton (note.c incl. the repairs F4, F7, F10, F11, F12): hand-written, validated by lock-step replay "
+                "(replay/note_replay.ml); note_mu is an atomic lock with nsync_mu_wait as an atomic blocking step (C01/C02/C06 are the licence)"]
 
 
 def run(tier, seed):
+    import mu_common
     res = {"violations": [], "broken": [], "coverage": {}}
+    tie = mu_common.tie(res, "note_replay", "NoteModel", [("note_mix", {"VRT_FAMILY": f}, 150, 1500) for f in (0, 1, 2, 3)], tier, seed)
     specs = [("note_mix", {"VRT_FAMILY": f}, 2000, 40000) for f in (0, 1, 2, 3)] + [("note_f8", {}, 800, 15000), ("note_f9", {}, 800, 15000)]
     cov = scen_common.run_scenarios(res, specs, tier, seed, {"C08"} | scen_common.LIVENESS | scen_common.CRASHES)
     cov["rule"] = ("note_mix: parent-child-grandchild(+sibling) trees with deadlines none/past/future, notifiers, pollers, waiters, creators, "
                    "freers; per-note observation history must be monotone (w.r.t. observations completed before a call starts), notify returns "
                    "with the note notified, at quiescence descendants of a notified note are notified, a notified note has a cause, expiry = "
                    "min over the creation path; family 3: two notifiers of one child while the parent's lock is busy; non-trivial = runs with sleeps")
+    cov.update(tie)
     res["coverage"] = cov
     return res
